@@ -154,6 +154,8 @@ theorem normQ_sound (e : IExpr) : ∀ {p : Poly}, normQ e = some p → ∀ ρ : 
   | max a b => intro p h; simp [normQ] at h
   | arr1 f i => intro p h; simp [normQ] at h
   | arr2 f i j => intro p h; simp [normQ] at h
+  | arr3 f i j k => intro p h; simp [normQ] at h
+  | powe a b => intro p h; simp [normQ] at h
 
 
 /-! ### the translation is value preserving on the fragment -/
@@ -186,6 +188,10 @@ theorem liftEnv_f1 (ρ : Env) (f : Nat) (z : Int) : (liftEnv ρ).f1 f (z : Rat) 
 
 theorem liftEnv_f2 (ρ : Env) (f : Nat) (y z : Int) :
     (liftEnv ρ).f2 f (y : Rat) (z : Rat) = (ρ.f2 f y z : Rat) := by
+  simp [liftEnv]
+
+theorem liftEnv_f3 (ρ : Env) (f : Nat) (x y z : Int) :
+    (liftEnv ρ).f3 f (x : Rat) (y : Rat) (z : Rat) = (ρ.f3 f x y z : Rat) := by
   simp [liftEnv]
 
 theorem hom_aux (brk : Bool) (ρ : Env) (e : IExpr) (h : frag brk e = true) :
@@ -228,6 +234,10 @@ theorem hom_aux (brk : Bool) (ρ : Env) (e : IExpr) (h : frag brk e = true) :
   | arr2 f i j ihi ihj =>
     simp only [frag, Bool.and_eq_true] at h
     simp only [toSymAux, wrapPow, evalQ, evalF, ihi h.1, ihj h.2, liftEnv_f2]
+  | arr3 f i j k ihi ihj ihk =>
+    simp only [frag, Bool.and_eq_true] at h
+    simp only [toSymAux, wrapPow, evalQ, evalF, ihi h.1.1, ihj h.1.2, ihk h.2, liftEnv_f3]
+  | powe a b => simp [frag] at h
 
 
 /-! ### solving linear equations -/
@@ -242,39 +252,65 @@ theorem evalPoly_filter_split (f : Mono × Rat → Bool) (p : Poly) (ρ : QEnv) 
     · simp only [Bool.not_eq_true] at h
       simp only [List.filter_cons, h, Bool.not_false, if_true, Bool.false_eq_true, if_false, evalPoly_cons, ← ih]; ring
 
-theorem evalMono_set {x : Nat} {m : Mono} (h : m.contains x = false) (ρ : Env) (z : Int) :
-    evalMono m (liftEnv (ρ.set x z)) = evalMono m (liftEnv ρ) := by
+theorem evalMono_setQ {x : Nat} {m : Mono} (h : m.contains x = false) (ρ : QEnv) (q : Rat) :
+    evalMono m (ρ.set x q) = evalMono m ρ := by
   induction m with
   | nil => rfl
   | cons v m ih =>
     simp only [List.contains_cons, Bool.or_eq_false_iff, beq_eq_false_iff_ne, ne_eq] at h
     have hv : v ≠ x := fun e => h.1 e.symm
     simp only [evalMono_cons, ih h.2]
-    simp [liftEnv, Env.set, hv]
+    simp [QEnv.set, hv]
 
-theorem evalPoly_set {x : Nat} {p : Poly} (h : ∀ t ∈ p, t.1.contains x = false) (ρ : Env) (z : Int) :
-    evalPoly p (liftEnv (ρ.set x z)) = evalPoly p (liftEnv ρ) := by
+theorem evalPoly_setQ {x : Nat} {p : Poly} (h : ∀ t ∈ p, t.1.contains x = false) (ρ : QEnv) (q : Rat) :
+    evalPoly p (ρ.set x q) = evalPoly p ρ := by
   induction p with
   | nil => rfl
   | cons t p ih =>
     simp only [evalPoly_cons]
-    rw [evalMono_set (h t (List.mem_cons_self ..)), ih (fun t ht => h t (List.mem_cons_of_mem _ ht))]
+    rw [evalMono_setQ (h t (List.mem_cons_self ..)), ih (fun t ht => h t (List.mem_cons_of_mem _ ht))]
 
-theorem solve_core {x : Nat} {d : Poly} {a : Rat} (ha : a ≠ 0)
-    (hx : d.filter (fun t => t.1.contains x) = [([x], a)]) (ρ : Env) (z : Int)
-    (hz : evalPoly (mulTerm [] (-1 / a) (d.filter (fun t => !t.1.contains x))) (liftEnv ρ) = (z : Rat)) :
-    evalPoly d (liftEnv (ρ.set x z)) = 0 := by
+theorem liftEnv_set (ρ : Env) (x : Nat) (z : Int) : liftEnv (ρ.set x z) = (liftEnv ρ).set x (z : Rat) := by
+  simp only [liftEnv, Env.set, QEnv.set]
+  congr 1
+  funext v
+  split <;> rfl
+
+/-- the value `-rest/a` of the unknown makes a polynomial `a*x + rest` (rest free of `x`) vanish, for every
+rational valuation -/
+theorem solve_coreQ {x : Nat} {d : Poly} {a : Rat} (ha : a ≠ 0)
+    (hx : d.filter (fun t => t.1.contains x) = [([x], a)]) (ρ : QEnv) :
+    evalPoly d (ρ.set x (evalPoly (mulTerm [] (-1 / a) (d.filter (fun t => !t.1.contains x))) ρ)) = 0 := by
   rw [← evalPoly_filter_split (fun t => t.1.contains x) d, hx]
   have hrest : ∀ t ∈ d.filter (fun t => !t.1.contains x), t.1.contains x = false := by
     intro t ht
     have := (List.mem_filter.mp ht).2
     simpa using this
-  rw [evalPoly_set hrest]
-  rw [evalPoly_mulTerm, evalMono_nil] at hz
-  have hv : (liftEnv (ρ.set x z)).var x = (z : Rat) := by simp [liftEnv, Env.set]
-  simp only [evalPoly_cons, evalPoly_nil, evalMono_cons, evalMono_nil, hv]
-  rw [← hz]
+  rw [evalPoly_setQ hrest]
+  rw [evalPoly_mulTerm, evalMono_nil]
+  simp only [evalPoly_cons, evalPoly_nil, evalMono_cons, evalMono_nil]
+  have hv : ∀ q, (ρ.set x q).var x = q := by intro q; simp [QEnv.set]
+  rw [hv]
   field_simp
   ring
+
+theorem solve_core {x : Nat} {d : Poly} {a : Rat} (ha : a ≠ 0)
+    (hx : d.filter (fun t => t.1.contains x) = [([x], a)]) (ρ : Env) (z : Int)
+    (hz : evalPoly (mulTerm [] (-1 / a) (d.filter (fun t => !t.1.contains x))) (liftEnv ρ) = (z : Rat)) :
+    evalPoly d (liftEnv (ρ.set x z)) = 0 := by
+  rw [liftEnv_set, ← hz]
+  exact solve_coreQ ha hx (liftEnv ρ)
+
+/-! ### integer powers -/
+
+theorem qzpow_eq_zpow (q : Rat) (z : Int) : qzpow q z = q ^ z := by
+  unfold qzpow
+  cases z with
+  | ofNat n => simp
+  | negSucc n =>
+    have h1 : ¬ (0 : Int) ≤ Int.negSucc n := by omega
+    rw [if_neg h1]
+    have h2 : (-Int.negSucc n).toNat = n + 1 := by omega
+    rw [h2, zpow_negSucc]
 
 end C17
